@@ -194,14 +194,36 @@ class Facts:
             r = list({f.id: f for f in r}.values())
         return r
 
-    def fn(self, name, nparams=None, sig_contains=None, optional=False):
+    def unit(self, *fns):
+        """declare functions that rules look at as units: they are never spliced into their callers"""
+        if not hasattr(self, "_units"):
+            self._units, self._flat = set(), {}
+        for f in fns:
+            if f is not None:
+                self._units.add(f.id)
+
+    def flat(self, f):
+        """flattened view of f (engine/inline.py): private helpers and local lambdas it calls are spliced in, except the
+        functions declared or requested as units"""
+        if f is None or f.body is None or getattr(f, "flat_of", None) is not None:
+            return f
+        if not hasattr(self, "_units"):
+            self._units, self._flat = set(), {}
+        key = (f.id, frozenset(self._units))
+        if key not in self._flat:
+            from .inline import flatten
+            self._flat[key] = flatten(self, f, stop=self._units - {f.id})
+        return self._flat[key]
+
+    def fn(self, name, nparams=None, sig_contains=None, optional=False, flat=True):
         c = self.fn_all(name)
         if nparams is not None:
             c = [f for f in c if len(f.params) == nparams]
         if sig_contains is not None:
             c = [f for f in c if sig_contains in f.sig]
         if len(c) == 1:
-            return c[0]
+            self.unit(c[0])
+            return self.flat(c[0]) if flat else c[0]
         if not c:
             if optional:
                 return None
@@ -365,16 +387,32 @@ def is_ref_to(n, decl, _depth=0):
     return False
 
 
+def through_param(n, _depth=0):
+    """if n refers to a parameter of a helper that was spliced into its caller, the argument it stands for (when every
+    spliced call passes the same expression shape); else n"""
+    n = skip_copies(n)
+    while isinstance(n, dict) and n.get("k") == "ref" and n.get("inl_param") and _depth < 4:
+        from .inline import PARAM_BIND
+        binds = PARAM_BIND.get(n.get("decl")) or []
+        if len(binds) != 1:
+            sigs = {describe(b) for b in binds}
+            if len(sigs) != 1:
+                break
+        n = skip_copies(binds[0])
+        _depth += 1
+    return n
+
+
 def is_field(n, qname):
     """member access to field `qname` (qualified, template args stripped for comparison) on this or any object"""
-    n = skip_copies(n)
+    n = through_param(n)
     if not (isinstance(n, dict) and n.get("k") == "member" and n.get("dk") == "field"):
         return False
     return name_is(strip_tmpl(n.get("name", "")), qname)
 
 
 def is_this_field(n, qname):
-    n = skip_copies(n)
+    n = through_param(n)
     return is_field(n, qname) and isinstance(n.get("base"), dict) and skip_copies(n["base"]).get("k") == "this"
 
 
